@@ -20,6 +20,7 @@ Lean cannot model GCC's constant evaluator (DESIGN §6).  What is proved here:
 The tie of both paths to these models/specifications is the three-way correspondence run of checks/props/c13.py.
 -/
 import TetlProofs.C13.Lemmas
+import TetlProofs.C13.LemmasSafe
 import TetlProofs.C14.Props
 import TetlProofs.C18.Props
 namespace Tetl.C13.Props
@@ -182,6 +183,103 @@ theorem signbit_neg (f : Fmt) (b : Nat) (hb : b < 2 ^ f.width) :
   rw [neg_eq f b hb, (sign_withSign f (1 - f.sign b) (f.absBits b) (by omega) habs).1]
   rcases hs with h | h <;> simp [h]
 example : FSpec.signbit f64 (f64.neg 0) = !FSpec.signbit f64 0 := signbit_neg f64 0 (by decide)
+
+/-! ## 2b. constant evaluation succeeds on the whole domain (model level): no conversion to `long long` out of range
+
+`Std f` holds for binary32 and binary64 (`std_f32`, `std_f64`).  Before the fixes of fix-c13 these statements were
+false: `floor(1e30f)` converted 1e30 to `long long` (see known_findings.d/C13.json). -/
+/-- gcem::floor never leaves the constant-expression subset: for every pattern of a standard format the model
+    returns `.ok` (no `long long` conversion out of range) -/
+theorem gcemFloor_total (f : Fmt) (h : Std f) (b : Nat) (hb : b < 2 ^ f.width) : ∃ v, Model.gcemFloor f b = .ok v := by
+  unfold Model.gcemFloor
+  rcases check_cases f h b hb _ with hv | ⟨hk, hfin, hsmall⟩
+  · exact hv
+  · rw [hk, toLL_ok_of_small f h b hfin hsmall]; exact ⟨_, rfl⟩
+example : ∃ v, Model.gcemFloor f32 0x7149f2ca = .ok v := gcemFloor_total f32 std_f32 _ (by decide)
+example : ∃ v, Model.gcemFloor f64 0xC3E0000000000001 = .ok v := gcemFloor_total f64 std_f64 _ (by decide)
+
+/-- gcem::ceil (both paths of `etl::ceil`): total likewise, so the run-time path has no `long long` overflow either -/
+theorem gcemCeil_total (f : Fmt) (h : Std f) (b : Nat) (hb : b < 2 ^ f.width) : ∃ v, Model.gcemCeil f b = .ok v := by
+  unfold Model.gcemCeil
+  rcases check_cases f h b hb _ with hv | ⟨hk, hfin, hsmall⟩
+  · exact hv
+  · rw [hk, toLL_ok_of_small f h b hfin hsmall]
+    simp only [bind, Except.bind]
+    split <;> exact ⟨_, rfl⟩
+example : ∃ v, Model.gcemCeil f32 0x7149f2ca = .ok v := gcemCeil_total f32 std_f32 _ (by decide)
+example : ∃ v, Model.gcemCeil f64 0xC3E0000000000001 = .ok v := gcemCeil_total f64 std_f64 _ (by decide)
+
+/-- gcem::trunc: total, including the conversion of `-x` on the negative branch -/
+theorem gcemTrunc_total (f : Fmt) (h : Std f) (b : Nat) (hb : b < 2 ^ f.width) : ∃ v, Model.gcemTrunc f b = .ok v := by
+  unfold Model.gcemTrunc
+  rcases check_cases f h b hb _ with hv | ⟨hk, hfin, hsmall⟩
+  · exact hv
+  · rw [hk]
+    have hfinN : f.isFinite (f.neg b) = true := by
+      obtain ⟨hs, _, habs⟩ := split f b hb
+      unfold Fmt.isFinite at hfin ⊢
+      rw [neg_eq f b hb, (sign_withSign f _ _ (by omega) habs).2]; exact hfin
+    have hsmallN : f.mag (f.neg b) < 2 ^ f.mbits * 2 ^ f.U := by rw [mag_neg f b hb]; exact hsmall
+    split
+    · rw [toLL_ok_of_small f h _ hfinN hsmallN]; exact ⟨_, rfl⟩
+    · rw [toLL_ok_of_small f h b hfin hsmall]; exact ⟨_, rfl⟩
+example : ∃ v, Model.gcemTrunc f32 0x7149f2ca = .ok v := gcemTrunc_total f32 std_f32 _ (by decide)
+example : ∃ v, Model.gcemTrunc f64 0xC3E0000000000001 = .ok v := gcemTrunc_total f64 std_f64 _ (by decide)
+
+
+
+/-- `detail::rint_fallback` never leaves the constant-expression subset -/
+theorem rintFallback_total (f : Fmt) (h : Std f) (b : Nat) (hb : b < 2 ^ f.width) :
+    ∃ v, Model.rintFallback f b = .ok v := by
+  unfold Model.rintFallback
+  cases hg : (f.lt (f.neg (Model.big f)) b && f.lt b (Model.big f))
+  · exact ⟨b, by simp⟩
+  · simp only [Bool.not_true, Bool.false_eq_true, if_false]
+    obtain ⟨hB1, hB2, hB3, hB4, hB5⟩ := big_facts f h
+    have hinf := inf_pos f h
+    obtain ⟨hs, _, habs⟩ := split f b hb
+    obtain ⟨P, hP⟩ : ∃ P, P = 2 ^ f.mbits * 2 ^ f.U := ⟨_, rfl⟩
+    rw [← hP] at hB5
+    rw [Bool.and_eq_true] at hg
+    obtain ⟨hl1, hl2⟩ := hg
+    have hnanB : f.isNaN (Model.big f) = false := by unfold Fmt.isNaN; simp [hB3]; omega
+    have hinfB : f.isInf (Model.big f) = false := by unfold Fmt.isInf; simp [hB3]; omega
+    have hnan : f.isNaN b = false := by
+      cases hn : f.isNaN b
+      · rfl
+      · unfold Fmt.lt at hl2; simp [hn] at hl2
+    have hBw : Model.big f < 2 ^ f.width := by rw [two_signW]; omega
+    have hnegB := neg_eq f (Model.big f) hBw
+    rw [hB4, hB3] at hnegB
+    simp only [Nat.sub_zero] at hnegB
+    have hswB := sign_withSign f 1 (Model.big f) (Or.inr rfl) (by omega)
+    have hnanNB : f.isNaN (f.neg (Model.big f)) = false := by
+      unfold Fmt.isNaN; rw [hnegB, hswB.2]; simp; omega
+    have hinfNB : f.isInf (f.neg (Model.big f)) = false := by
+      unfold Fmt.isInf; rw [hnegB, hswB.2]; simp; omega
+    have hsNB : f.smag (f.neg (Model.big f)) = -(P : Int) := by
+      unfold Fmt.smag; rw [mag_neg f _ hBw, hnegB, hswB.1, hB5]; simp
+    have hsB : f.smag (Model.big f) = (P : Int) := by unfold Fmt.smag; simp [hB4, hB5]
+    -- an infinite b fails one of the two comparisons
+    have hinfb : f.isInf b = false := by
+      cases hi : f.isInf b
+      · rfl
+      · unfold Fmt.lt at hl1 hl2
+        simp [hnan, hnanB, hnanNB, hi, hinfB, hinfNB] at hl1 hl2
+        rcases hs with h0 | h0 <;> simp [h0] at hl1 hl2
+    have hfin : f.isFinite b = true := by
+      unfold Fmt.isNaN at hnan; unfold Fmt.isInf at hinfb; unfold Fmt.isFinite
+      simp at hnan hinfb ⊢; omega
+    unfold Fmt.lt at hl1 hl2
+    simp [hnan, hnanB, hnanNB, hinfb, hinfB, hinfNB, hsNB, hsB] at hl1 hl2
+    have hsmall : f.mag b < P := by
+      unfold Fmt.smag at hl1 hl2
+      rcases hs with h0 | h0 <;> simp [h0] at hl1 hl2 <;> omega
+    rw [toLL_ok_of_small f h b hfin (by rw [← hP]; exact hsmall)]
+    simp only [bind, Except.bind]
+    exact ite_ok _ _ _
+example : ∃ v, Model.rintFallback f32 0x7149f2ca = .ok v := rintFallback_total f32 std_f32 _ (by decide)
+example : ∃ v, Model.rintFallback f64 0xC3E0000000000001 = .ok v := rintFallback_total f64 std_f64 _ (by decide)
 
 /-! ## 3. the known divergence: fma in constant evaluation (F-c13-fma-constexpr-double-rounding) -/
 
